@@ -328,6 +328,70 @@ class Ctx(object):
                 self.log('PROOF BROKEN %s\n%s' % (rel, msg))
         return ok_all
 
+    # -- stage R+P for the regenerated effect tables (C08, C18, C19) ---------------------
+    def effects_obligations(self):
+        """Regenerate the event paths of the self-mutating methods from the CURRENT source
+        (tools/regen/effects_ast.py, fail closed) and re-prove this property's obligation file
+        coq/obl/Eff_<prop>.v on them.  A failure is recorded as a broken tie whose detail names the
+        methods and paths that fail the analysis; the concrete search of the check goes on."""
+        import shutil
+        import importlib
+        t0 = time.time()
+        gdir = os.path.join(GEN, 'eff_' + self.prop)
+        os.makedirs(gdir, exist_ok=True)
+        for f in os.listdir(gdir):
+            os.remove(os.path.join(gdir, f))
+        sys.path.insert(0, VERIF)
+        ea = importlib.import_module('tools.regen.effects_ast')
+        ea.REPO = REPO
+        try:
+            path, nfn, npaths = ea.generate(os.path.join(gdir, 'Gen_effects.v'))
+        except ea.Untranslatable as e:
+            self.obligations.append(('regenerate-effects', False, str(e)))
+            self.broken_tie('regeneration', 'tools/regen/effects_ast.py', str(e))
+            self.log('EFFECTS REGENERATION FAILED: %s' % e)
+            return False
+        extra = ('-R', gdir, 'PMGen')
+        rc, out, err, dt = run_coqc(path, timeout=300, extra=extra)
+        if rc != 0:
+            self.obligations.append(('regenerate-effects', False, (err or out)[-1500:]))
+            self.broken_tie('regeneration', 'gen/Gen_effects.v', (err or out)[-1500:])
+            return False
+        self.obligations.append(('regenerate-effects', True, '%d methods, %d paths' % (nfn, npaths)))
+        name = 'Eff_%s.v' % self.prop
+        obl = os.path.join(gdir, name)
+        shutil.copy(os.path.join(COQ, 'obl', name), obl)
+        src = open(obl).read()
+        names = re.findall(r'^\s*Theorem\s+(\w+)', src, re.M)
+        rc, out, err, dt = run_coqc(obl, timeout=600, extra=extra)
+        if rc == 0:
+            blocks = [b.strip() for b in re.split(r'(?=Closed under the global context|Axioms:)', out) if b.strip()]
+            for i, nm in enumerate(re.findall(r'Print Assumptions\s+(\w+)', src)):
+                if i < len(blocks):
+                    self.axioms[nm] = blocks[i][:1500]
+            for nm in names:
+                self.obligations.append((nm, True, 'coq/obl/' + name))
+            self.cov['effect_paths'] = npaths
+            self.log('regenerated effects: %d methods, %d paths; %d obligations re-proved in %.1fs'
+                     % (nfn, npaths, len(names), time.time() - t0))
+            return True
+        msg = (err or out)[-1200:]
+        failing = re.search(r'File "[^"]*", line (\d+)', msg)
+        which = None
+        if failing:
+            upto = src.split('\n')[:int(failing.group(1))]
+            th = [m for m in re.findall(r'^\s*Theorem\s+(\w+)', '\n'.join(upto), re.M)]
+            which = th[-1] if th else None
+        diag = os.path.join(gdir, 'Eff_diag.v')
+        shutil.copy(os.path.join(COQ, 'obl', 'Eff_diag.v'), diag)
+        rc2, out2, err2, _ = run_coqc(diag, timeout=300, extra=extra)
+        for nm in names:
+            self.obligations.append((nm, False, msg))
+        self.broken_tie('proof', 'coq/obl/%s: %s' % (name, which or 'obligation'),
+                        {'coq': msg, 'failing_methods_and_paths': (out2 if rc2 == 0 else err2)[-3000:]})
+        self.log('EFFECT OBLIGATION BROKEN %s (%s)\n%s' % (name, which, (out2 if rc2 == 0 else err2)[-1500:]))
+        return False
+
     # -- stage K ------------------------------------------------------------
     def coq_eval_shards(self, name, header, terms, wrap, shard=300, timeout=900):
         """Evaluate `wrap(list_of_terms)` (must yield `list nat` of mismatching
